@@ -222,6 +222,8 @@ class Renderer:
             if fam == "cs":
                 return ["(int a, int[] b = new int[] {1, 2})"]
             return [f"({a}, {b})"]
+        if f.params == "arrowdefault":  # a default value that is itself an arrow function with a block body (JS/TS)
+            return ["(a, done = (err) => {", "    log(err);", "})"]
         if f.params == "calldefault":  # a call expression inside the parameter list
             if fam == "py":
                 return ["(a, b=bar(1))"]
@@ -495,6 +497,16 @@ def programs(lang, tier="quick", seed=0):
                     b = list(bodies[kb])
                     b.insert(min(pos, len(b)), F("g1", [S(), RET()]))
                     add(f"nestprod-{pos}-{kb}", top([F("f1", b), F("f2", [S()])]))
+    return P
+
+
+def extra_programs(lang):
+    """Programs outside the canonical family of C01 (they hit listed known findings there) that other checks still want to look at."""
+    fam = LANGS[lang]["fam"]
+    P = {}
+    if fam in ("js", "ts"):
+        P["x-arrow-default-arrow"] = [F("handler", [RET()], kind="arrow", params="arrowdefault"), F("plain", [RET()])]
+        P["x-fn-default-arrow"] = [F("handler", [RET()], kind="fn", params="arrowdefault"), F("plain", [RET()])]
     return P
 
 
